@@ -53,22 +53,26 @@ type kase struct {
 	fails      map[string]string
 }
 
+// Stub programs (POSIX sh; a shell start is several times cheaper than re-executing this binary).
+//
+//	gpg/gpgsm:  <prog> --keyid-format=long --status-fd=1 --verify <sigfile> -      (payload on stdin)
+//	ssh-keygen: <prog> -Y find-principals -f <allowed> -s <sigfile> ...            (prints principals)
+//	            <prog> -Y verify|check-novalidate ... -s <sigfile>                 (payload on stdin)
+//	signing:    <prog> --status-fd=2 -bsau <key>                                   (payload on stdin, armor on stdout)
 const gpgStub = `#!/bin/sh
-# stands in for gpg / gpgsm: git runs "<prog> --keyid-format=long --status-fd=1 --verify <sigfile> -" with the payload on stdin
 sig=""; prev=""
 for a in "$@"; do if [ "$prev" = "--verify" ]; then sig="$a"; fi; prev="$a"; done
 cat > "$C03_OUT/payload"
-cp "$sig" "$C03_OUT/sig"
-echo "$0" > "$C03_OUT/prog"
-echo "[GNUPG:] NEWSIG"
-echo "[GNUPG:] GOODSIG 0123456789ABCDEF Stub Signer <stub@example.com>"
-echo "[GNUPG:] VALIDSIG 0123456789ABCDEF0123456789ABCDEF01234567 2020-01-01 1577836800 0 4 0 1 8 00 0123456789ABCDEF0123456789ABCDEF01234567"
-echo "[GNUPG:] TRUST_ULTIMATE 0 pgp"
+cat "$sig" > "$C03_OUT/sig"
+echo "${0##*/}" > "$C03_OUT/prog"
+echo "[GNUPG:] NEWSIG
+[GNUPG:] GOODSIG 0123456789ABCDEF Stub Signer <stub@example.com>
+[GNUPG:] VALIDSIG 0123456789ABCDEF0123456789ABCDEF01234567 2020-01-01 1577836800 0 4 0 1 8 00 0123456789ABCDEF0123456789ABCDEF01234567
+[GNUPG:] TRUST_ULTIMATE 0 pgp"
 exit 0
 `
 
 const sshStub = `#!/bin/sh
-# stands in for ssh-keygen -Y find-principals | verify | check-novalidate
 mode=""; sig=""; prev=""
 for a in "$@"; do
   if [ "$prev" = "-Y" ]; then mode="$a"; fi
@@ -76,18 +80,21 @@ for a in "$@"; do
   prev="$a"
 done
 case "$mode" in
-  find-principals) cp "$sig" "$C03_OUT/sig"; echo "stub@example.com"; exit 0;;
-  verify|check-novalidate) cat > "$C03_OUT/payload"; cp "$sig" "$C03_OUT/sig"; echo "$0" > "$C03_OUT/prog"
+  find-principals) echo "stub@example.com"; exit 0;;
+  verify|check-novalidate) cat > "$C03_OUT/payload"; cat "$sig" > "$C03_OUT/sig"; echo "${0##*/}" > "$C03_OUT/prog"
      echo 'Good "git" signature for stub@example.com with ED25519 key SHA256:stubstubstubstubstubstubstubstubstubstubstub'; exit 0;;
 esac
 exit 1
 `
 
 const signStub = `#!/bin/sh
-# stands in for gpg when git signs: "<prog> --status-fd=2 -bsau <key>"; payload on stdin, armored signature on stdout
 cat > /dev/null
 echo "[GNUPG:] SIG_CREATED D 1 8 00 1577836800 0123456789ABCDEF0123456789ABCDEF01234567" >&2
-printf '%s\n' "-----BEGIN PGP SIGNATURE-----" "" "c3R1YiBzaWduYXR1cmU=" "=stub" "-----END PGP SIGNATURE-----"
+echo "-----BEGIN PGP SIGNATURE-----
+
+c3R1YiBzaWduYXR1cmU=
+=stub
+-----END PGP SIGNATURE-----"
 exit 0
 `
 
@@ -119,20 +126,20 @@ func run(c *vf.Ctx) {
 
 	for _, fname := range []string{"sha1", "sha256"} {
 		idLen := 40
-		nC, nT := c.N(110, 700), c.N(50, 250)
+		nC, nT := c.N(90, 700), c.N(40, 250)
 		if fname == "sha256" {
 			idLen = 64
-			nC, nT = c.N(40, 250), c.N(20, 100)
+			nC, nT = c.N(30, 250), c.N(15, 100)
 		}
 		if !side(c, g, bin, fname, idLen, nC, nT) {
 			return
 		}
 	}
 	c.Extra("git_invocations", gitx.Calls.Load())
-	c.Floor("objects where git called its verifier", c.Counter("git_verifier_calls"), c.N(170, 1100))
-	c.Floor("payload comparisons", c.Counter("payload_comparisons"), c.N(170, 1100))
+	c.Floor("objects where git called its verifier", c.Counter("git_verifier_calls"), c.N(130, 1100))
+	c.Floor("payload comparisons", c.Counter("payload_comparisons"), c.N(130, 1100))
 	c.Floor("objects without signature (both sides must refuse)", c.Counter("unsigned_objects"), c.N(30, 150))
-	c.Floor("mutated-after-decode objects", c.Counter("mutated_cases"), c.N(30, 200))
+	c.Floor("mutated-after-decode objects", c.Counter("mutated_cases"), c.N(25, 200))
 	c.Floor("objects signed by git", c.Counter("git_signed_objects"), 8)
 	c.Floor("verifier programs seen", c.SeenCount("verifier_programs"), 3)
 	c.Floor("distinct perturbations exercised", c.SeenCount("perturbations"), 80)
